@@ -39,6 +39,28 @@ theorem layoutSwitch_ok : Generated.C12.layoutSwitch = expectedLayoutSwitch := b
 theorem tailConds_ok : Generated.C12.tailConds = expectedTailConds := by decide
 theorem frontEnds_ok : Generated.C12.frontEnds = expectedFrontEnds := by decide
 
+/-! ### skeleton of `FToBaseStr` (toString(radix)), transcribed by Radix.lean and proved correct in RadixProps.lean
+
+`fracStep` mirrors the three exit branches (`j1==0&&even`, `j<0||(j==0&&even)`, `j1>0`) and their inner tests in
+this order; `fracInit` mirrors `s2 = −E` (`−1` for `E = 0`) `+ bias + p` = `1076 − E` resp. `1075`, `mlo = mhi = 1`,
+and in the power-of-two case `s2 += log2P`, `mhi = 1<<log2P = 2`. -/
+
+def expectedRadixConds : List String :=
+  ["num<0", "dfloor==float64(ldfloor)", "negative", "negative&&ldfloor==0", "exp==0", "negative", "exp>0", "exp<0",
+   "num==dfloor", "s2==0", "-s2>=e",
+   "(word1==0)&&((word0&bndry_mask)==0)&&((word0&(exp_mask&(exp_mask<<1)))!=0)", "mlo!=mhi", "delta.Sign()<=0",
+   "j1==0&&(word1&1)==0", "j>0", "j<0||(j==0&&((word1&1)==0))", "j1>0", "j1>0", "j1>0"]
+
+def expectedRadixInit : List String :=
+  ["s2:=-int((word0>>exp_shift1)&(exp_mask>>exp_shift1))", "s2=-1", "s2+=bias+p", "mlo:=big.NewInt(1)", "mhi:=mlo",
+   "s2+=log2P", "mhi=big.NewInt(1<<log2P)"]
+
+def expectedRadixConsts : List String := ["bias=1023", "p=53", "log2P=1"]
+
+theorem radixConds_ok : Generated.C12.radixConds = expectedRadixConds := by decide
+theorem radixInit_ok : Generated.C12.radixInit = expectedRadixInit := by decide
+theorem radixConsts_ok : Generated.C12.radixConsts = expectedRadixConsts := by decide
+
 /-! ### the Lean layout functions use exactly the pinned constants (goja's `decPt` is the point position `n`) -/
 
 /-- ModeStandard: exponential notation iff `decPt < -5 || decPt > 21`. -/
